@@ -4031,7 +4031,7 @@ class IfThenElse(Construct):
     def _emitseq(self, ksy, bitwise):
         return [
         dict(id="thenvalue", type=self.thensubcon._compileprimitivetype(ksy, bitwise), if_=repr(self.condfunc).replace("this.","")),
-        dict(id="elsesubcon", type=self.elsesubcon._compileprimitivetype(ksy, bitwise), if_=repr(~self.condfunc).replace("this.","")),
+        dict(id="elsesubcon", type=self.elsesubcon._compileprimitivetype(ksy, bitwise), if_=repr(~self.condfunc if isinstance(self.condfunc, ExprMixin) else not self.condfunc).replace("this.","")),
         ]
 
 
